@@ -44,6 +44,12 @@ Theorem C10_same : forall s1 s2, ksorted s1 -> ksorted s2 -> (forall k, kv_get s
 Proof. intros s1 s2 H1 H2 He ops. rewrite (ksorted_ext s1 s2 H1 H2 He). reflexivity. Qed.
 Print Assumptions C10_same.
 
+(* a transactional or bulk update whose callback fails leaves the map exactly as it was, whatever it did before failing *)
+Theorem C10_failed_update_leaves_no_trace : forall s ops kvs,
+  kv_step s (OUpdateFail ops) = (s, RErr) /\ kv_step s (OBulkFail kvs) = (s, RErr).
+Proof. intros s ops kvs. split; reflexivity. Qed.
+Print Assumptions C10_failed_update_leaves_no_trace.
+
 Example C10_nonvacuous :
   let s := fst (kv_run [] [OSet [2;1] [9]; OSet [1] []; OSet [2] [7]; OSet [3]%N [8]; ODel [3]])%N in
   s = [([1],[]); ([2],[7]); ([2;1],[9])]%N /\ prefix_scan s [2]%N = [([2],[7]); ([2;1],[9])]%N
